@@ -88,9 +88,20 @@ unsafe impl Send for LoomRaw {}
 const TICK_POOL: usize = 8;
 static TICKS: std::sync::Mutex<Vec<std::sync::Arc<loom::sync::atomic::AtomicUsize>>> = std::sync::Mutex::new(Vec::new());
 fn next_tick() -> std::sync::Arc<loom::sync::atomic::AtomicUsize> {
+    if WAKER_POINTS.load(Ordering::Relaxed) {
+        // scenarios with scheduling wakers: locks and wakers share one object, so that every
+        // waker operation is dependent with every critical section of the other threads
+        return wtick();
+    }
     TICKS.lock().unwrap().pop().unwrap_or_else(|| panic!("MACHINERY: more than {} locks in one execution", TICK_POOL))
 }
+static WAKER_POINTS: std::sync::atomic::AtomicBool = std::sync::atomic::AtomicBool::new(false);
+static WTICK: std::sync::Mutex<Option<std::sync::Arc<loom::sync::atomic::AtomicUsize>>> = std::sync::Mutex::new(None);
+fn wtick() -> std::sync::Arc<loom::sync::atomic::AtomicUsize> {
+    WTICK.lock().unwrap().as_ref().expect("wtick").clone()
+}
 fn reset_tick_pool() {
+    *WTICK.lock().unwrap() = Some(std::sync::Arc::new(loom::sync::atomic::AtomicUsize::new(0)));
     let mut t = TICKS.lock().unwrap();
     t.clear();
     for _ in 0..TICK_POOL {
@@ -169,15 +180,53 @@ fn counting_waker() -> (Waker, std::sync::Arc<AtomicUsize>) {
     (Waker::from(std::sync::Arc::new(CW(c.clone()))), c)
 }
 
+/// Counting waker whose clone / drop / wake are loom scheduling points (an RMW on the object the
+/// lock shim uses in the scenarios tagged `wk:`), like the atomic reference count of a real
+/// task waker: code that handles wakers outside the critical section, or reads / writes a wait
+/// node around such a call without holding the lock, becomes interleavable there.
+fn sched_waker() -> (Waker, std::sync::Arc<AtomicUsize>) {
+    if !WAKER_POINTS.load(Ordering::Relaxed) {
+        return counting_waker();
+    }
+    struct Inner {
+        count: std::sync::Arc<AtomicUsize>,
+    }
+    fn point() {
+        wtick().fetch_add(1, Ordering::Relaxed);
+    }
+    unsafe fn clone(p: *const ()) -> RawWaker {
+        point();
+        std::sync::Arc::increment_strong_count(p as *const Inner);
+        RawWaker::new(p, &VT)
+    }
+    unsafe fn wake(p: *const ()) {
+        point();
+        let a = std::sync::Arc::from_raw(p as *const Inner);
+        a.count.fetch_add(1, Ordering::SeqCst);
+    }
+    unsafe fn wake_by_ref(p: *const ()) {
+        point();
+        (*(p as *const Inner)).count.fetch_add(1, Ordering::SeqCst);
+    }
+    unsafe fn drop_w(p: *const ()) {
+        point();
+        drop(std::sync::Arc::from_raw(p as *const Inner));
+    }
+    static VT: RawWakerVTable = RawWakerVTable::new(clone, wake, wake_by_ref, drop_w);
+    let c = std::sync::Arc::new(AtomicUsize::new(0));
+    let inner = std::sync::Arc::new(Inner { count: c.clone() });
+    (unsafe { Waker::from_raw(RawWaker::new(std::sync::Arc::into_raw(inner) as *const (), &VT)) }, c)
+}
+
 /// The future is polled with waker 1 (pending), then - concurrently with the thread that
 /// performs the enabling operation - polled again with waker 2. If it is still pending after
 /// the enabling operation has finished, it must have been woken through waker 2 (the waker of
 /// its latest poll) and must complete when polled again.
 fn swap_check<F: Future>(prop: &str, what: &str, fut: F, spawn_enabler: impl FnOnce() -> loom::thread::JoinHandle<()>) {
     let mut fut = Box::pin(fut);
-    let (w1, _c1) = counting_waker();
-    let (w2, c2) = counting_waker();
-    let (w3, _c3) = counting_waker();
+    let (w1, _c1) = sched_waker();
+    let (w2, c2) = sched_waker();
+    let (w3, _c3) = sched_waker();
     if fut.as_mut().poll(&mut Context::from_waker(&w1)).is_ready() {
         spawn_enabler().join().unwrap();
         return;
@@ -249,6 +298,81 @@ fn mutex_notified_drop_contended_fair() {
 }
 fn mutex_notified_drop_contended_unfair() {
     mutex_notified_drop_contended(false)
+}
+
+/// A thread drops the guard while the main thread barges with try_lock() and, if it got the lock,
+/// keeps holding it until the unlocking thread has finished: whatever the unlocking thread does
+/// after its critical section sees the mutex locked again. In the end the mutex is free, so the
+/// parked waiter must hold a wake-up (from the first unlock or from the barger's).
+fn mutex_barger_holds(fair: bool) {
+    let m = Arc::new(GenericMutex::<LoomRaw, Tracked>::new(Tracked::new(), fair));
+    let _ = m.is_locked();
+    let mr: &'static GenericMutex<LoomRaw, Tracked> = unsafe { &*(&*m as *const GenericMutex<LoomRaw, Tracked>) };
+    let g = mr.try_lock().unwrap();
+    let mut f = Box::pin(mr.lock());
+    let (w, c) = counting_waker();
+    assert!(f.as_mut().poll(&mut Context::from_waker(&w)).is_pending());
+    let gb = SendBox(Box::new(g));
+    let keep = m.clone();
+    let hu = loom::thread::spawn(move || {
+        let g = gb;
+        drop(g);
+        let _ = &keep;
+    });
+    let barger = mr.try_lock();
+    hu.join().unwrap();
+    if let Some(g) = barger {
+        g.incr();
+        drop(g);
+    }
+    assert!(c.load(Ordering::SeqCst) > 0, "C03: the mutex is free and a lock future is pending, but it has not been woken since its last poll");
+    match f.as_mut().poll(&mut Context::from_waker(&w)) {
+        Poll::Ready(g) => drop(g),
+        Poll::Pending => panic!("C03: the mutex is free but the woken lock future stays pending"),
+    }
+    drop(f);
+    epilogue_mutex(&m);
+}
+fn mutex_barger_holds_fair() {
+    mutex_barger_holds(true)
+}
+fn mutex_barger_holds_unfair() {
+    mutex_barger_holds(false)
+}
+
+/// the same for the semaphore: a releaser is dropped by a thread while the main thread barges with
+/// try_acquire() and holds its permit until that thread has finished
+fn sem_barger_holds(fair: bool) {
+    let s = Arc::new(GenericSemaphore::<LoomRaw>::new(fair, 1));
+    let _ = s.permits();
+    let sr: &'static GenericSemaphore<LoomRaw> = unsafe { &*(&*s as *const GenericSemaphore<LoomRaw>) };
+    let r = sr.try_acquire(1).unwrap();
+    let mut f = Box::pin(sr.acquire(1));
+    let (w, c) = counting_waker();
+    assert!(f.as_mut().poll(&mut Context::from_waker(&w)).is_pending());
+    let rb = SendBox(Box::new(r));
+    let keep = s.clone();
+    let hu = loom::thread::spawn(move || {
+        let r = rb;
+        drop(r);
+        let _ = &keep;
+    });
+    let barger = sr.try_acquire(1);
+    hu.join().unwrap();
+    drop(barger);
+    assert!(c.load(Ordering::SeqCst) > 0, "C06: a permit is free and an acquire future is pending, but it has not been woken since its last poll");
+    match f.as_mut().poll(&mut Context::from_waker(&w)) {
+        Poll::Ready(r) => drop(r),
+        Poll::Pending => panic!("C06: the permit is free but the woken acquire future stays pending"),
+    }
+    drop(f);
+    epilogue_sem(&s, 1);
+}
+fn sem_barger_holds_fair() {
+    sem_barger_holds(true)
+}
+fn sem_barger_holds_unfair() {
+    sem_barger_holds(false)
 }
 
 fn sem_notified_drop_contended(fair: bool) {
@@ -456,6 +580,95 @@ fn swap_timer() {
 }
 
 
+// ------------------------------------------------ sequential epilogues
+// After all threads of a scenario have been joined, the primitive is put through one plain
+// single-threaded cycle whose outcome the property fixes completely. A lock-free mirror, cached
+// flag or counter that a racy schedule left out of step with the locked state shows up here even
+// if nothing observable went wrong during the race itself.
+
+fn epilogue_mutex<T>(m: &GenericMutex<LoomRaw, T>) {
+    assert!(!m.is_locked(), "C02: is_locked() is true although no guard is alive");
+    let g = m.try_lock().expect("C02/C03: mutex not lockable after all tasks finished");
+    assert!(m.is_locked(), "C02: is_locked() is false while a guard is alive");
+    assert!(m.try_lock().is_none(), "C02: second guard while one is alive");
+    let mut f = Box::pin(m.lock());
+    let (w, c) = counting_waker();
+    assert!(f.as_mut().poll(&mut Context::from_waker(&w)).is_pending(), "C02: lock future completed while a guard is alive");
+    drop(g);
+    assert!(c.load(Ordering::SeqCst) > 0, "C03: unlock did not wake the only pending lock future");
+    match f.as_mut().poll(&mut Context::from_waker(&w)) {
+        Poll::Ready(g2) => drop(g2),
+        Poll::Pending => panic!("C03: the mutex is free but the woken lock future stays pending"),
+    }
+    drop(f);
+    assert!(!m.is_locked(), "C02: is_locked() is true although no guard is alive");
+}
+
+fn epilogue_sem(s: &GenericSemaphore<LoomRaw>, expected: usize) {
+    assert_eq!(s.permits(), expected, "C05: permits() differs from initial + released - outstanding");
+    let mut f = Box::pin(s.acquire(expected + 1));
+    let (w, c) = counting_waker();
+    assert!(f.as_mut().poll(&mut Context::from_waker(&w)).is_pending(), "C05: acquire of more permits than exist completed");
+    s.release(1);
+    assert!(c.load(Ordering::SeqCst) > 0, "C06: release() made the head request fit but did not wake it");
+    match f.as_mut().poll(&mut Context::from_waker(&w)) {
+        Poll::Ready(r) => {
+            assert_eq!(s.permits(), 0, "C05: permits() wrong while all permits are held");
+            drop(r);
+        }
+        Poll::Pending => panic!("C06: the request fits but the woken acquire future stays pending"),
+    }
+    drop(f);
+    assert_eq!(s.permits(), expected + 1, "C05: permits not returned by the releaser");
+}
+
+fn epilogue_event(e: &GenericManualResetEvent<LoomRaw>) {
+    e.reset();
+    assert!(!e.is_set(), "C14: is_set() is true after reset()");
+    let mut fut = Box::pin(e.wait());
+    let (w1, c1) = counting_waker();
+    assert!(fut.as_mut().poll(&mut Context::from_waker(&w1)).is_pending(), "C14: wait future completes although the event is reset");
+    e.set();
+    assert!(e.is_set(), "C14: is_set() is false after set()");
+    assert!(c1.load(Ordering::SeqCst) > 0, "C14: set() did not wake the pending waiter");
+    assert!(fut.as_mut().poll(&mut Context::from_waker(&w1)).is_ready(), "C14: wait future pending although the event is set");
+    drop(fut);
+}
+
+/// the heap must be empty and the clock at `now`
+fn epilogue_timer(t: &GenericTimerService<LoomRaw>, now: u64) {
+    assert_eq!(t.next_expiration(), None, "C15: next_expiration() reports a deadline although no timer is registered");
+    let mut f = Box::pin(Timer::deadline(t, now + 5));
+    let (w, c) = counting_waker();
+    assert!(f.as_mut().poll(&mut Context::from_waker(&w)).is_pending(), "C15: timer completed early");
+    assert_eq!(t.next_expiration(), Some(now + 5), "C15: next_expiration() is not the smallest registered deadline");
+    t.check_expirations();
+    assert_eq!(c.load(Ordering::SeqCst), 0, "C15: check_expirations() woke a timer that is not due");
+    CLK.0.store(now + 5, Ordering::SeqCst);
+    t.check_expirations();
+    assert!(c.load(Ordering::SeqCst) > 0, "C15: check_expirations() did not wake a due timer");
+    assert!(f.as_mut().poll(&mut Context::from_waker(&w)).is_ready(), "C15: due timer future does not complete");
+    drop(f);
+    assert_eq!(t.next_expiration(), None, "C15: next_expiration() reports a deadline although no timer is registered");
+}
+
+/// the channel must be open
+fn epilogue_state(c: &GenericStateBroadcastChannel<LoomRaw, u32>, v: u32) {
+    let id = c.try_receive(StateId::new()).map(|x| x.0).unwrap_or_else(StateId::new);
+    let mut f = Box::pin(c.receive(id));
+    let (w, cnt) = counting_waker();
+    assert!(f.as_mut().poll(&mut Context::from_waker(&w)).is_pending(), "C13: receive completed although nothing newer was published");
+    c.send(v).expect("C13: send on an open channel failed");
+    assert!(cnt.load(Ordering::SeqCst) > 0, "C13: send() did not wake the pending receiver");
+    match f.as_mut().poll(&mut Context::from_waker(&w)) {
+        Poll::Ready(Some((nid, x))) => {
+            assert!(nid > id, "C13: id not increasing");
+            assert_eq!(x, v, "C13: receiver did not get the latest state");
+        }
+        _ => panic!("C13: pending receiver did not get the published state"),
+    }
+}
+
 // ---- scheduling points for the crate's handle counters (verif::sync::AtomicUsize hook)
 // The loom atomics standing in for the counters are created by the main thread at the start of
 // every execution (a loom object created lazily inside a spawned thread has no happens-before edge
@@ -520,6 +733,8 @@ fn mutex_counter(fair: bool) {
     assert!(!m.is_locked(), "C02: mutex still locked after all guards were dropped");
     let g = m.try_lock().expect("C02/C03: mutex not lockable after all tasks finished");
     assert_eq!(3, g.get(), "C02: lost update under the guard");
+    drop(g);
+    epilogue_mutex(&m);
 }
 fn mutex_counter_fair() {
     mutex_counter(true)
@@ -557,6 +772,8 @@ fn mutex_abandon(fair: bool) {
     h2.join().unwrap();
     let g = m.try_lock().expect("C03: mutex not lockable after all tasks finished");
     assert!(g.get() >= 2);
+    drop(g);
+    epilogue_mutex(&m);
 }
 /// the holder unlocks while one waiter awaits, one waiter abandons and one more waiter awaits
 fn mutex_cancel_in_queue(fair: bool) {
@@ -590,6 +807,8 @@ fn mutex_cancel_in_queue(fair: bool) {
     h3.join().unwrap();
     let g = m.try_lock().expect("C03: mutex not lockable after all tasks finished");
     assert!(g.get() >= 3, "C02: lost update under the guard");
+    drop(g);
+    epilogue_mutex(&m);
 }
 fn mutex_cancel_in_queue_fair() {
     mutex_cancel_in_queue(true)
@@ -629,6 +848,7 @@ fn sem_mixed(fair: bool) {
         h.join().unwrap();
     }
     assert_eq!(2, s.permits(), "C05: permits not conserved");
+    epilogue_sem(&s, 2);
 }
 fn sem_mixed_fair() {
     sem_mixed(true)
@@ -659,6 +879,7 @@ fn sem_timeout(fair: bool) {
     h1.join().unwrap();
     h2.join().unwrap();
     assert_eq!(0, s.permits(), "C05: permits not conserved");
+    epilogue_sem(&s, 0);
 }
 fn sem_timeout_fair() {
     sem_timeout(true)
@@ -690,6 +911,7 @@ fn sem_thief() {
     h1.join().unwrap();
     h2.join().unwrap();
     assert_eq!(2, s.permits(), "C05: permits not conserved");
+    epilogue_sem(&s, 2);
 }
 
 /// nobody waits: permit conservation under concurrent try_acquire / releaser drop
@@ -713,6 +935,7 @@ fn sem_try_conserve() {
         h.join().unwrap();
     }
     assert_eq!(2, s.permits(), "C05: permits not conserved");
+    epilogue_sem(&s, 2);
 }
 
 fn sem_shared_mixed() {
@@ -759,6 +982,7 @@ fn event_set_reset_set() {
     h1.join().unwrap();
     h2.join().unwrap();
     assert!(e.is_set());
+    epilogue_event(&e);
 }
 
 /// set() races with a waiter that abandons its parked wait future (two waiters parked, so that the
@@ -833,6 +1057,7 @@ fn event_two_waiters() {
         h.join().unwrap();
     }
     assert!(e.is_set());
+    epilogue_event(&e);
 }
 
 /// a waiter is registered; set() and reset() race on two threads: the waiter was pending while
@@ -853,6 +1078,33 @@ fn event_set_vs_reset() {
     assert!(c1.load(Ordering::SeqCst) > 0, "C14: set() was called while the waiter was pending but it was not woken");
     let (w2, _c2) = counting_waker();
     assert!(fut.as_mut().poll(&mut Context::from_waker(&w2)).is_ready(), "C14: the event was set while the future waited, but it does not complete");
+    drop(fut);
+}
+
+/// set() on one thread races with set(); reset() on another; afterwards the event must still work:
+/// is_set() follows reset() / set(), and a waiter registered while it is reset is woken by set()
+fn event_setters_race() {
+    let e = Arc::new(GenericManualResetEvent::<LoomRaw>::new(false));
+    let _ = e.is_set();
+    let e1 = e.clone();
+    let h1 = loom::thread::spawn(move || e1.set());
+    let e2 = e.clone();
+    let h2 = loom::thread::spawn(move || {
+        e2.set();
+        e2.reset();
+    });
+    h1.join().unwrap();
+    h2.join().unwrap();
+    e.reset();
+    assert!(!e.is_set(), "C14: is_set() is true after reset()");
+    let er: &'static GenericManualResetEvent<LoomRaw> = unsafe { &*(&*e as *const GenericManualResetEvent<LoomRaw>) };
+    let mut fut = Box::pin(er.wait());
+    let (w1, c1) = counting_waker();
+    assert!(fut.as_mut().poll(&mut Context::from_waker(&w1)).is_pending(), "C14: wait future completes although the event is reset");
+    e.set();
+    assert!(e.is_set(), "C14: is_set() is false after set()");
+    assert!(c1.load(Ordering::SeqCst) > 0, "C14: set() did not wake the pending waiter");
+    assert!(fut.as_mut().poll(&mut Context::from_waker(&w1)).is_ready(), "C14: wait future pending although the event is set");
     drop(fut);
 }
 
@@ -1123,6 +1375,81 @@ fn mpmc_last_sender_closes() {
     h1.join().unwrap();
     h2.join().unwrap();
     assert_eq!(got, vec![5], "C11: accepted value must be delivered before None");
+}
+
+/// A pending future that outlives every handle: the last sender and the last receiver are dropped
+/// by two threads at the same time. Whoever is last has to close the channel, so the orphaned
+/// future must have been woken and must complete.
+fn mpmc_orphan_recv() {
+    let (tx, rx) = sh::generic_channel::<LoomRaw, u32, FixedHeapBuf<u32>>(1);
+    let _ = rx.try_receive();
+    let mut r = Box::pin(rx.receive());
+    let (w, c) = counting_waker();
+    assert!(r.as_mut().poll(&mut Context::from_waker(&w)).is_pending());
+    let h1 = loom::thread::spawn(move || drop(tx));
+    let h2 = loom::thread::spawn(move || drop(rx));
+    h1.join().unwrap();
+    h2.join().unwrap();
+    assert!(c.load(Ordering::SeqCst) > 0, "C10: every handle is gone (channel closed) but the pending receive future was not woken");
+    assert_eq!(r.as_mut().poll(&mut Context::from_waker(&w)), Poll::Ready(None), "C11: receive on a channel without handles must yield None");
+}
+
+fn mpmc_orphan_send() {
+    let (tx, rx) = sh::generic_channel::<LoomRaw, u32, FixedHeapBuf<u32>>(0);
+    let _ = rx.try_receive();
+    let mut f = Box::pin(tx.send(7));
+    let (w, c) = counting_waker();
+    assert!(f.as_mut().poll(&mut Context::from_waker(&w)).is_pending());
+    let h1 = loom::thread::spawn(move || drop(tx));
+    let h2 = loom::thread::spawn(move || drop(rx));
+    h1.join().unwrap();
+    h2.join().unwrap();
+    assert!(c.load(Ordering::SeqCst) > 0, "C10: every handle is gone (channel closed) but the pending send future was not woken");
+    match f.as_mut().poll(&mut Context::from_waker(&w)) {
+        Poll::Ready(Err(e)) => assert_eq!(e.0, 7, "C08: the rejected send must hand back its own value"),
+        other => panic!("C11: a send on a channel without handles must fail, got {:?}", other.map(|r| r.is_ok())),
+    }
+}
+
+fn state_orphan_recv() {
+    let (tx, rx) = sh::generic_state_broadcast_channel::<LoomRaw, u32>();
+    let _ = rx.try_receive(StateId::new());
+    let mut r = Box::pin(rx.receive(StateId::new()));
+    let (w, c) = counting_waker();
+    assert!(r.as_mut().poll(&mut Context::from_waker(&w)).is_pending());
+    let h1 = loom::thread::spawn(move || drop(tx));
+    let h2 = loom::thread::spawn(move || drop(rx));
+    h1.join().unwrap();
+    h2.join().unwrap();
+    assert!(c.load(Ordering::SeqCst) > 0, "C13: every handle is gone (channel closed) but the pending receive future was not woken");
+    assert!(matches!(r.as_mut().poll(&mut Context::from_waker(&w)), Poll::Ready(None)), "C13: receive on a closed channel without a newer state must yield None");
+}
+
+fn bcast_orphan_recv() {
+    let (tx, rx) = sh::generic_oneshot_broadcast_channel::<LoomRaw, u32>();
+    let _ = poll_once_and_drop(rx.receive());
+    let mut r = Box::pin(rx.receive());
+    let (w, c) = counting_waker();
+    assert!(r.as_mut().poll(&mut Context::from_waker(&w)).is_pending());
+    let h1 = loom::thread::spawn(move || drop(tx));
+    let h2 = loom::thread::spawn(move || drop(rx));
+    h1.join().unwrap();
+    h2.join().unwrap();
+    assert!(c.load(Ordering::SeqCst) > 0, "C12: every handle is gone (channel closed) but the pending receive future was not woken");
+    assert_eq!(r.as_mut().poll(&mut Context::from_waker(&w)), Poll::Ready(None), "C12: receive on a closed channel without value must yield None");
+}
+
+fn oneshot_orphan_recv() {
+    let (tx, rx) = sh::generic_oneshot_channel::<LoomRaw, u32>();
+    let mut r = Box::pin(rx.receive());
+    let (w, c) = counting_waker();
+    assert!(r.as_mut().poll(&mut Context::from_waker(&w)).is_pending());
+    let h1 = loom::thread::spawn(move || drop(tx));
+    let h2 = loom::thread::spawn(move || drop(rx));
+    h1.join().unwrap();
+    h2.join().unwrap();
+    assert!(c.load(Ordering::SeqCst) > 0, "C12: every handle is gone (channel closed) but the pending receive future was not woken");
+    assert_eq!(r.as_mut().poll(&mut Context::from_waker(&w)), Poll::Ready(None), "C12: receive on a closed channel without value must yield None");
 }
 
 /// a transient clone/drop of a sender races with the drop of another sender clone while the
@@ -1448,6 +1775,7 @@ fn state_try_receive_contended() {
     let r = c.try_receive(StateId::new());
     h.join().unwrap();
     assert!(matches!(r, Some((_, 1)) | Some((_, 2))), "C13: try_receive(StateId::new()) returned {:?} although a state is published", r.map(|x| x.1));
+    epilogue_state(&c, 3);
 }
 
 // ------------------------------------------------------------------ timer
@@ -1500,6 +1828,7 @@ fn timer_two_waiters() {
         h.join().unwrap();
     }
     assert_eq!(t.next_expiration(), None, "C15: heap not empty after all timers expired");
+    epilogue_timer(&t, 2);
 }
 
 /// one waiter abandons its timer future while the timer thread expires timers
@@ -1523,6 +1852,7 @@ fn timer_abandon() {
     h1.join().unwrap();
     h2.join().unwrap();
     assert_eq!(t.next_expiration(), None, "C15/C01: heap not empty after all timers expired or were dropped");
+    epilogue_timer(&t, 1);
 }
 
 const SCENARIOS: &[(&str, &str, Scenario)] = &[
@@ -1531,13 +1861,23 @@ const SCENARIOS: &[(&str, &str, Scenario)] = &[
     ("mpmc_close_vs_abandon", "C01,C11", mpmc_close_vs_abandon),
     ("mpmc_close_vs_abandon_rev", "C01,C11", mpmc_close_vs_abandon_rev),
     ("mpmc_double_close", "hook:C11", mpmc_double_close),
+    ("mpmc_orphan_recv", "hook:C10,C11", mpmc_orphan_recv),
+    ("mpmc_orphan_send", "hook:C08,C10,C11", mpmc_orphan_send),
+    ("state_orphan_recv", "hook:C11,C13", state_orphan_recv),
+    ("bcast_orphan_recv", "hook:C11,C12", bcast_orphan_recv),
+    ("oneshot_orphan_recv", "hook:C11,C12", oneshot_orphan_recv),
     ("state_send_vs_abandon", "C01,C13", state_send_vs_abandon),
     ("state_send_vs_abandon_rev", "C01,C13", state_send_vs_abandon_rev),
     ("bcast_send_vs_abandon", "C01,C12", bcast_send_vs_abandon),
     ("bcast_send_vs_abandon_rev", "C01,C12", bcast_send_vs_abandon_rev),
+    ("mutex_barger_holds_fair", "C02,C03", mutex_barger_holds_fair),
+    ("mutex_barger_holds_unfair", "C02,C03", mutex_barger_holds_unfair),
+    ("sem_barger_holds_fair", "C05,C06", sem_barger_holds_fair),
+    ("sem_barger_holds_unfair", "C05,C06", sem_barger_holds_unfair),
     ("mutex_fair_order", "C04", mutex_fair_order),
     ("sem_fair_order", "C07", sem_fair_order),
     ("event_set_vs_reset", "C14", event_set_vs_reset),
+    ("event_setters_race", "C14", event_setters_race),
     ("mpmc_last_receiver_clears", "hook:C11", mpmc_last_receiver_clears),
     ("mpmc_refill_race", "C09", mpmc_refill_race),
     ("mpmc_cancel_vs_receive_cap0", "C01,C08", mpmc_cancel_vs_receive_cap0),
@@ -1549,16 +1889,16 @@ const SCENARIOS: &[(&str, &str, Scenario)] = &[
     ("sem_notified_drop_contended_unfair", "C06", sem_notified_drop_contended_unfair),
     ("state_try_receive_contended", "C13", state_try_receive_contended),
     ("timer_check_contended", "C15", timer_check_contended),
-    ("swap_mutex_fair", "C03", swap_mutex_fair),
-    ("swap_mutex_unfair", "C03", swap_mutex_unfair),
-    ("swap_sem_fair", "C06", swap_sem_fair),
-    ("swap_sem_unfair", "C06", swap_sem_unfair),
-    ("swap_event", "C14", swap_event),
-    ("swap_mpmc_recv", "C10", swap_mpmc_recv),
-    ("swap_mpmc_send", "C10", swap_mpmc_send),
-    ("swap_oneshot", "C12", swap_oneshot),
-    ("swap_state", "C13", swap_state),
-    ("swap_timer", "C15", swap_timer),
+    ("swap_mutex_fair", "wk:C03", swap_mutex_fair),
+    ("swap_mutex_unfair", "wk:C03", swap_mutex_unfair),
+    ("swap_sem_fair", "wk:C06", swap_sem_fair),
+    ("swap_sem_unfair", "wk:C06", swap_sem_unfair),
+    ("swap_event", "wk:C14", swap_event),
+    ("swap_mpmc_recv", "wk:C10", swap_mpmc_recv),
+    ("swap_mpmc_send", "wk:C10", swap_mpmc_send),
+    ("swap_oneshot", "wk:C12", swap_oneshot),
+    ("swap_state", "wk:C13", swap_state),
+    ("swap_timer", "wk:C15", swap_timer),
     ("mutex_cancel_in_queue_fair", "C01,C02,C03", mutex_cancel_in_queue_fair),
     ("mutex_cancel_in_queue_unfair", "C02,C03", mutex_cancel_in_queue_unfair),
     ("event_two_waiters", "C14", event_two_waiters),
@@ -1600,7 +1940,7 @@ fn main() {
     match args.get(1).map(|s| s.as_str()) {
         Some("list") => {
             for (n, p, _) in SCENARIOS {
-                println!("{} {}", n, p.replace("hook:", ""));
+                println!("{} {}", n, p.replace("hook:", "").replace("wk:", ""));
             }
         }
         Some("run") => {
@@ -1609,6 +1949,9 @@ fn main() {
                 eprintln!("unknown scenario {}", name);
                 std::process::exit(2)
             });
+            if props.contains("wk:") {
+                WAKER_POINTS.store(true, Ordering::Relaxed);
+            }
             if props.contains("hook:") {
                 HOOK_ON.store(true, Ordering::Relaxed);
                 futures_intrusive::verif::sync::set_sched_hook(Some(sched_hook));
